@@ -30,6 +30,12 @@ func (op *PRelu) Apply(inputs []tensor.Tensor) ([]tensor.Tensor, error) {
 
 	x, slope := inputs[0], inputs[1]
 
+	// The data of a scalar can not be accessed as a list, so scalars are calculated as
+	// tensors with a single element, and the result is turned into a scalar again.
+	if x.Shape().IsScalar() {
+		return op.applyToScalar(x, slope)
+	}
+
 	x, slope, err = ops.UnidirectionalBroadcast(x, slope)
 	if err != nil {
 		return nil, err
@@ -59,6 +65,42 @@ func (op *PRelu) Apply(inputs []tensor.Tensor) ([]tensor.Tensor, error) {
 	}
 
 	return []tensor.Tensor{y}, nil
+}
+
+// applyToScalar applies the prelu operator to a scalar x.
+func (op *PRelu) applyToScalar(x, slope tensor.Tensor) ([]tensor.Tensor, error) {
+	if !slope.Shape().IsScalar() {
+		return nil, ops.ErrUnidirBroadcast(x.Shape(), slope.Shape())
+	}
+
+	xVector, ok := x.Clone().(tensor.Tensor)
+	if !ok {
+		return nil, ops.ErrTypeAssert("tensor.Tensor", x.Clone())
+	}
+
+	slopeVector, ok := slope.Clone().(tensor.Tensor)
+	if !ok {
+		return nil, ops.ErrTypeAssert("tensor.Tensor", slope.Clone())
+	}
+
+	if err := xVector.Reshape(1); err != nil {
+		return nil, err
+	}
+
+	if err := slopeVector.Reshape(1); err != nil {
+		return nil, err
+	}
+
+	out, err := op.Apply([]tensor.Tensor{xVector, slopeVector})
+	if err != nil {
+		return nil, err
+	}
+
+	if err := out[0].Reshape(); err != nil {
+		return nil, err
+	}
+
+	return out, nil
 }
 
 // ValidateInputs validates the inputs that will be given to Apply for this operator.
